@@ -13,6 +13,15 @@
 //!   Prints `nonce <id> <n>` and then whatever `tx <id> <signer> <n> ...` prints.
 //! * `deposits`        all deposits currently cached in the working state, in full.
 //! * `bdeposits`       all deposits stored for the last committed block, in full.
+//! * `tx <id> <signer> <nonce> <action> [; <action>]...`  like the base op, with one more action
+//!   keyword: `ibcrelay bad=<k>` = an `IbcRelay` action (`MsgUpgradeClient` for the non-existing
+//!   client `test-id-<k>`) which passes the stateless checks and always fails
+//!   `check_and_execute`.  Its signer must be an IBC relayer (`genesis relayers=` / `relayer add=`).
+//!   Before Blackburn its failure is an ordinary (fatal) execution error, afterwards it is a
+//!   `NonFatalExecution` error: the transaction is included in the block with a non-zero code.
+//!   `exec` marks such a failure with a trailing `included=1`.
+//! * `setnonce <acct> <u32>`  writes the account's nonce directly (like `mint` writes a balance)
+//!   -> `setnonce ok`.
 //!
 //! Run with:
 //! `cargo test --offline -p astria-sequencer --features verif --lib app::verif_ledger::drive -- --exact`
@@ -31,9 +40,21 @@ use std::{
 
 use astria_core::{
     primitive::v1::RollupId,
+    protocol::transaction::v1::{
+        Action,
+        TransactionBodyBuilder,
+    },
     sequencerblock::v1::block::Deposit,
+    Protobuf as _,
 };
+use bytes::Bytes;
 use futures::FutureExt as _;
+use penumbra_ibc::IbcRelay;
+use prost::Message as _;
+use sha2::{
+    Digest as _,
+    Sha256,
+};
 use tendermint::{
     abci::{
         types::ExecTxResult,
@@ -50,15 +71,23 @@ use super::{
         debug_enabled,
         error_chain,
         name_sort_key,
+        parse_action,
+        parse_num,
+        report_chain,
         working_state_fingerprint,
         Harness,
+        KeyValues,
         PResult,
+        CHAIN_ID,
         FEE_KINDS,
     },
     ExecutedTransaction,
 };
 use crate::{
-    accounts::StateReadExt as _,
+    accounts::{
+        StateReadExt as _,
+        StateWriteExt as _,
+    },
     bridge::StateReadExt as _,
     checked_actions::CheckedActionExecutionError,
     checked_transaction::{
@@ -229,12 +258,13 @@ async fn op_exec(harness: &mut Harness, args: &[&str]) -> PResult<()> {
         Err(error) => {
             let text = error_chain(&error);
             let class = classify("exec", &text);
-            if matches!(
+            let non_fatal = matches!(
                 error,
                 CheckedTransactionExecutionError::CheckedAction(
                     CheckedActionExecutionError::NonFatalExecution { .. }
                 )
-            ) {
+            );
+            if non_fatal {
                 chain
                     .manual
                     .as_mut()
@@ -256,8 +286,9 @@ async fn op_exec(harness: &mut Harness, args: &[&str]) -> PResult<()> {
             let after = working_state_fingerprint(&chain.app).await;
             let deposits_after = chain.app.state().get_cached_block_deposits();
             harness.out.push_str(&format!(
-                "exec {id} err={class} unchanged={}\n",
-                before == after && deposits_before == deposits_after
+                "exec {id} err={class} unchanged={}{}\n",
+                before == after && deposits_before == deposits_after,
+                if non_fatal { " included=1" } else { "" }
             ));
         }
     }
@@ -285,8 +316,141 @@ async fn op_txr(harness: &mut Harness, args: &[&str]) -> PResult<()> {
         .map_err(|error| format!("{error:#}"))?;
     let nonce = (i64::from(current) + delta).clamp(0, i64::from(u32::MAX));
     harness.emit(format!("nonce {id} {nonce}"));
-    let line = format!("tx {id} {signer} {nonce} {}", action_tokens.join(" "));
-    harness.run_line(&line).await;
+    let nonce = nonce.to_string();
+    let mut tx_args: Vec<&str> = vec![id, signer, &nonce];
+    tx_args.extend_from_slice(action_tokens);
+    // Same reporting as a `tx` line of its own.
+    if let Err(message) = op_tx(harness, &tx_args) {
+        if debug_enabled() {
+            eprintln!("[verif] parse error in txr `{id}`: {message}");
+        }
+        harness.emit(format!("tx {id} parseerr"));
+    }
+    Ok(())
+}
+
+/// An `IbcRelay` action which passes `check_stateless` and fails `check_and_execute`: a client
+/// upgrade for a client which does not exist (cf. `tests_app::bad_ibc_relay`).
+fn failing_ibc_relay(counter: u64) -> PResult<IbcRelay> {
+    use ibc_proto::{
+        google::protobuf::{
+            Any,
+            Timestamp,
+        },
+        ibc::{
+            core::commitment::v1::{
+                MerkleProof as RawMerkleProof,
+                MerkleRoot as RawMerkleRoot,
+            },
+            lightclients::tendermint::v1::{
+                ClientState as RawTmClientState,
+                ConsensusState as RawConsensusState,
+            },
+        },
+    };
+    use ibc_types::{
+        core::client::{
+            msgs::MsgUpgradeClient,
+            ClientId,
+            ClientType,
+        },
+        lightclients::tendermint::{
+            client_state::TENDERMINT_CLIENT_STATE_TYPE_URL,
+            consensus_state::TENDERMINT_CONSENSUS_STATE_TYPE_URL,
+        },
+    };
+
+    use crate::test_utils::dummy_ibc_client_state;
+
+    let raw_client_state = RawTmClientState::from(dummy_ibc_client_state(1));
+    let raw_consensus_state = RawConsensusState {
+        timestamp: Some(Timestamp {
+            seconds: 1,
+            nanos: 0,
+        }),
+        root: Some(RawMerkleRoot::default()),
+        next_validators_hash: vec![],
+    };
+    Ok(IbcRelay::UpgradeClient(MsgUpgradeClient {
+        client_id: ClientId::new(ClientType::new("test-id".to_string()), counter)
+            .map_err(|error| error.to_string())?,
+        client_state: Any {
+            type_url: TENDERMINT_CLIENT_STATE_TYPE_URL.to_string(),
+            value: raw_client_state.encode_to_vec(),
+        },
+        consensus_state: Any {
+            type_url: TENDERMINT_CONSENSUS_STATE_TYPE_URL.to_string(),
+            value: raw_consensus_state.encode_to_vec(),
+        },
+        proof_upgrade_client: RawMerkleProof::default(),
+        proof_upgrade_consensus_state: RawMerkleProof::default(),
+        signer: String::new(),
+    }))
+}
+
+/// The base harness' actions plus `ibcrelay bad=<k>`.
+fn parse_action_ext(harness: &mut Harness, tokens: &[&str]) -> PResult<Action> {
+    if let Some((&"ibcrelay", rest)) = tokens.split_first() {
+        let kv = KeyValues::parse("ibcrelay", rest)?;
+        return Ok(failing_ibc_relay(kv.num("bad")?)?.into());
+    }
+    parse_action(&harness.names, tokens, &mut harness.evids)
+}
+
+/// `tx`: as `Harness::op_tx`, with the extended action syntax.
+fn op_tx(harness: &mut Harness, args: &[&str]) -> PResult<()> {
+    let [id, signer, nonce, action_tokens @ ..] = args else {
+        return Err("usage: tx <id> <signer> <nonce> <action> [; <action>]...".to_string());
+    };
+    let signer = harness.names.account_index(signer)?;
+    let nonce: u32 = parse_num(nonce)?;
+    let mut actions = Vec::new();
+    for tokens in action_tokens.split(|token| *token == ";") {
+        if tokens.is_empty() {
+            continue;
+        }
+        actions.push(parse_action_ext(harness, tokens)?);
+    }
+    let body = match TransactionBodyBuilder::new()
+        .nonce(nonce)
+        .chain_id(CHAIN_ID.to_string())
+        .actions(actions)
+        .try_build()
+    {
+        Ok(body) => body,
+        Err(error) => {
+            let _ = classify("tx build", &error_chain(&error));
+            harness.emit(format!("tx {id} builderr"));
+            return Ok(());
+        }
+    };
+    let tx = body.sign(&harness.names.keys[signer]);
+    let group = tx.group();
+    let bytes = Bytes::from(tx.into_raw().encode_to_vec());
+    let hash: [u8; 32] = Sha256::digest(&bytes).into();
+    if let Some(old_bytes) = harness.txs.insert((*id).to_string(), bytes.clone()) {
+        let old_hash: [u8; 32] = Sha256::digest(&old_bytes).into();
+        harness.tx_names.remove(&old_hash);
+    }
+    harness.tx_names.insert(hash, (*id).to_string());
+    harness.emit(format!("tx {id} len={} group={group:?}", bytes.len()));
+    Ok(())
+}
+
+/// `setnonce <acct> <u32>`: writes the nonce of an account directly.
+async fn op_setnonce(harness: &mut Harness, args: &[&str]) -> PResult<()> {
+    let [account, nonce] = args else {
+        return Err("usage: setnonce <acct> <u32>".to_string());
+    };
+    let address = harness.names.address(account)?;
+    let nonce: u32 = parse_num(nonce)?;
+    let chain = harness.chain()?;
+    let mut delta = chain.app.new_state_delta();
+    delta
+        .put_account_nonce(&address, nonce)
+        .map_err(|error| report_chain(&error))?;
+    chain.apply_delta(delta).await;
+    harness.emit("setnonce ok");
     Ok(())
 }
 
@@ -345,7 +509,9 @@ async fn op_bdeposits(harness: &mut Harness) -> PResult<()> {
 async fn run_own_op(harness: &mut Harness, op: &str, args: &[&str]) -> PResult<()> {
     match op {
         "exec" => op_exec(harness, args).await,
+        "tx" => op_tx(harness, args),
         "txr" => op_txr(harness, args).await,
+        "setnonce" => op_setnonce(harness, args).await,
         "deposits" => op_deposits(harness).await,
         "bdeposits" => op_bdeposits(harness).await,
         other => Err(format!("unknown op `{other}`")),
@@ -357,7 +523,10 @@ async fn run_line(harness: &mut Harness, line: &str) {
     let Some((&op, args)) = tokens.split_first() else {
         return;
     };
-    if !matches!(op, "exec" | "txr" | "deposits" | "bdeposits") {
+    if !matches!(
+        op,
+        "exec" | "tx" | "txr" | "setnonce" | "deposits" | "bdeposits"
+    ) {
         harness.run_line(line).await;
         return;
     }
@@ -366,7 +535,7 @@ async fn run_line(harness: &mut Harness, line: &str) {
         .catch_unwind()
         .await;
     let subject = match op {
-        "exec" | "txr" => args.first().map(|id| format!(" {id}")).unwrap_or_default(),
+        "exec" | "tx" | "txr" => args.first().map(|id| format!(" {id}")).unwrap_or_default(),
         _ => String::new(),
     };
     match result {
